@@ -165,69 +165,7 @@ func c05(c *Ctx) {
 	c.R.Require("R-manual", 1)
 
 	// ---- R-skip -----------------------------------------------------------------
-	writers := c.findWriters(tb)
-	if len(writers) == 0 {
-		c.R.Undecided("R-skip", "no-writer", "UpdateFanSpeed", "-", "no Fan.SetPwm invoke in the call tree of UpdateFanSpeed (anchor unresolved)")
-	}
-	readsPwm := func(call *ssa.Call) bool {
-		if isFanInvoke(call, "GetPwm") {
-			return true
-		}
-		for _, cal := range c.Callees(call) {
-			if c.reaches(cal, func(cc ssa.CallInstruction) bool { return isFanInvoke(cc, "GetPwm") }) {
-				return true
-			}
-		}
-		return false
-	}
-	for _, w := range writers {
-		key := c.FK(w.fn)
-		c.R.Note("write routine", key+": SetPwm("+w.term.String()+")")
-		exp := ir.Resolve(w.expected)
-		eqEdge := func(b *ssa.BasicBlock, si int) bool {
-			return ir.HasFact(ir.EdgeFacts(b, si), token.EQL, func(x, y ssa.Value) bool {
-				var other ssa.Value
-				if x == exp {
-					other = y
-				} else if y == exp {
-					other = x
-				} else {
-					return false
-				}
-				ex, ok := other.(*ssa.Extract)
-				if !ok || ex.Index != 0 {
-					return false
-				}
-				call, ok := ex.Tuple.(*ssa.Call)
-				return ok && readsPwm(call)
-			})
-		}
-		okEdge := func(b *ssa.BasicBlock, si int) bool {
-			return ir.HasFact(ir.EdgeFacts(b, si), token.EQL, func(x, y ssa.Value) bool {
-				if !ir.IsNilConst(y) {
-					return false
-				}
-				ex, ok := x.(*ssa.Extract)
-				if !ok {
-					return false
-				}
-				call, ok := ex.Tuple.(*ssa.Call)
-				return ok && readsPwm(call)
-			})
-		}
-		isWrite := func(ins ssa.Instruction) bool { return ins == ssa.Instruction(w.setPwm) }
-		start := []ir.Point{{Block: w.fn.Blocks[0]}}
-		noEq := returnsFrom(start, ir.Search{StopInstr: isWrite, StopEdge: eqEdge})
-		noOk := returnsFrom(start, ir.Search{StopInstr: isWrite, StopEdge: okEdge})
-		if len(noEq) > 0 {
-			c.R.Bad("R-skip", key, key, c.P.Pos(noEq[0].ret.Pos()), "the write routine can return without writing on a path that did not establish expected == current PWM")
-		} else if len(noOk) > 0 {
-			c.R.Bad("R-skip", key, key, c.P.Pos(noOk[0].ret.Pos()), "the write routine can skip the write on a path where the PWM read-back was not established successful (err == nil)")
-		} else {
-			c.R.Ok("R-skip", key, key, c.P.Pos(w.setPwm.Pos()), "the write is skipped only across edges establishing a successful PWM read and expected == current")
-		}
-	}
-	c.R.Require("R-skip", 1)
+	writers := c.ruleSkip("R-skip", tb)
 
 	// ---- R-count ------------------------------------------------------------------
 	for _, w := range writers {
@@ -422,4 +360,73 @@ func recvTypeName(fn *ssa.Function) string {
 		return n.Obj().Name()
 	}
 	return ""
+}
+
+// ruleSkip: the write routine skips the write only when a fresh, successful read of the fan's PWM equals the
+// value it would write (shared by C05 and C07: a write skipped on any other condition leaves a stale value).
+func (c *Ctx) ruleSkip(rule string, tb *ir.TB) []*writerInfo {
+	writers := c.findWriters(tb)
+	if len(writers) == 0 {
+		c.R.Undecided(rule, "no-writer", "UpdateFanSpeed", "-", "no Fan.SetPwm invoke in the call tree of UpdateFanSpeed (anchor unresolved)")
+	}
+	readsPwm := func(call *ssa.Call) bool {
+		if isFanInvoke(call, "GetPwm") {
+			return true
+		}
+		for _, cal := range c.Callees(call) {
+			if c.reaches(cal, func(cc ssa.CallInstruction) bool { return isFanInvoke(cc, "GetPwm") }) {
+				return true
+			}
+		}
+		return false
+	}
+	for _, w := range writers {
+		key := c.FK(w.fn)
+		c.R.Note("write routine", key+": SetPwm("+w.term.String()+")")
+		exp := ir.Resolve(w.expected)
+		eqEdge := func(b *ssa.BasicBlock, si int) bool {
+			return ir.HasFact(ir.EdgeFacts(b, si), token.EQL, func(x, y ssa.Value) bool {
+				var other ssa.Value
+				if x == exp {
+					other = y
+				} else if y == exp {
+					other = x
+				} else {
+					return false
+				}
+				ex, ok := other.(*ssa.Extract)
+				if !ok || ex.Index != 0 {
+					return false
+				}
+				call, ok := ex.Tuple.(*ssa.Call)
+				return ok && readsPwm(call)
+			})
+		}
+		okEdge := func(b *ssa.BasicBlock, si int) bool {
+			return ir.HasFact(ir.EdgeFacts(b, si), token.EQL, func(x, y ssa.Value) bool {
+				if !ir.IsNilConst(y) {
+					return false
+				}
+				ex, ok := x.(*ssa.Extract)
+				if !ok {
+					return false
+				}
+				call, ok := ex.Tuple.(*ssa.Call)
+				return ok && readsPwm(call)
+			})
+		}
+		isWrite := func(ins ssa.Instruction) bool { return ins == ssa.Instruction(w.setPwm) }
+		start := []ir.Point{{Block: w.fn.Blocks[0]}}
+		noEq := returnsFrom(start, ir.Search{StopInstr: isWrite, StopEdge: eqEdge})
+		noOk := returnsFrom(start, ir.Search{StopInstr: isWrite, StopEdge: okEdge})
+		if len(noEq) > 0 {
+			c.R.Bad(rule, key, key, c.P.Pos(noEq[0].ret.Pos()), "the write routine can return without writing on a path that did not establish expected == current PWM")
+		} else if len(noOk) > 0 {
+			c.R.Bad(rule, key, key, c.P.Pos(noOk[0].ret.Pos()), "the write routine can skip the write on a path where the PWM read-back was not established successful (err == nil)")
+		} else {
+			c.R.Ok(rule, key, key, c.P.Pos(w.setPwm.Pos()), "the write is skipped only across edges establishing a successful PWM read and expected == current")
+		}
+	}
+	c.R.Require(rule, 1)
+	return writers
 }
